@@ -1,0 +1,53 @@
+"""
+Verification hooks (add-only instrumentation for the model-based verification harness).
+
+Disabled unless the environment variable ``SYMPLYPHYSICS_VERIF`` is ``1`` when the package is
+imported, and silent unless a ``sink`` callable has been installed by the harness. With the
+guard off the decorators below return the decorated function unchanged.
+"""
+
+import functools
+import os
+from typing import Any, Callable, Optional
+
+enabled: bool = os.environ.get("SYMPLYPHYSICS_VERIF") == "1"
+
+sink: Optional[Callable[[str, dict[str, Any]], None]] = None
+
+_depth: dict[str, int] = {}
+
+
+def emit(kind: str, **payload: Any) -> None:
+    if sink is not None:
+        sink(kind, payload)
+
+
+def traced(kind: str) -> Callable[[Callable[..., Any]], Callable[..., Any]]:
+    """
+    Emits one event at every exit of the decorated function (result or exception), after the
+    call's own nested calls (post-order), with the nesting depth of that ``kind``.
+    """
+
+    def decorate(func: Callable[..., Any]) -> Callable[..., Any]:
+        if not enabled:
+            return func
+
+        @functools.wraps(func)
+        def wrapper(*args: Any, **kwargs: Any) -> Any:
+            if sink is None:
+                return func(*args, **kwargs)
+            depth = _depth.get(kind, 0)
+            _depth[kind] = depth + 1
+            try:
+                result = func(*args, **kwargs)
+            except BaseException as e:
+                _depth[kind] = depth
+                emit(kind, args=args, kwargs=kwargs, error=e, depth=depth)
+                raise
+            _depth[kind] = depth
+            emit(kind, args=args, kwargs=kwargs, result=result, depth=depth)
+            return result
+
+        return wrapper
+
+    return decorate
